@@ -148,7 +148,12 @@ def run_property(pid, tier, seed, args, t0):
     n_gen = len(run.tasks)
     log(f"[{pid}] functions under contract: {len([r for r in run.reports if not getattr(r, 'canary', None)])} cases, "
         f"{n_gen} solver tasks generated in {time.time() - t0:.1f}s")
+    t_d = time.time()
     run.discharge()
+    log(f"[{pid}] solvers finished in {time.time() - t_d:.1f}s")
+    if args.verbose:
+        for secs, oid in sorted(((r.secs, oid) for oid, r in run.results.items()), reverse=True)[:8]:
+            log(f"    {secs:6.1f}s {run.results[oid].status:8s} {oid}")
 
     known = load_known()
     findings = [f for f in known.get("findings", []) if f["property"] == pid]
